@@ -136,7 +136,7 @@ func init() {
 				l = append(l, nil)
 				continue
 			}
-			p, err := object.NewPoint(atof(f[0]), atof(f[1]), atof(f[2]))
+			p, err := argPoint(atof(f[0]), atof(f[1]), atof(f[2]))
 			if err != nil {
 				return "ERR"
 			}
@@ -152,7 +152,7 @@ func init() {
 				l = append(l, nil)
 				continue
 			}
-			p, err := object.NewPoint(atof(f[0]), atof(f[1]), atof(f[2]))
+			p, err := argPoint(atof(f[0]), atof(f[1]), atof(f[2]))
 			if err != nil {
 				return "ERR"
 			}
